@@ -70,13 +70,44 @@ type input struct {
 }
 
 func build(src string) (sp *spec.Spec, T *lr.ParsingTable, perr, terr, panicked error) {
+	var twice error
 	panicked = rec.Guard(func() {
 		sp, perr = spec.Parse("t.ebnf", strings.NewReader(src))
 		if perr == nil {
-			T, terr = sp.LALRParsingTable()
+			T, terr, twice = tableOf(sp, src)
 		}
 	})
+	if panicked == nil && twice != nil {
+		panicked = twice
+	}
 	return
+}
+
+// otherLevels is derived between the derivation of a specification and the construction of its table in half of the
+// cases (chosen by a digest of the text): the levels of the specification at hand are its own directives, whatever
+// was derived since.
+const otherLevels = "grammar other;\n@right \"+\" \"-\" \"*\" \"/\" \"^\" \"a\" \"b\" \"c\"\n@none \"<\" \"i\" \"e\"\n@left <start = start start> <e = e e>\nstart = start \"+\" start | start start | \"n\";\ne = e e | \"x\";\n"
+
+// tableOf asks for the LALR(1) table the way a caller may: after other work, and more than once. The second answer
+// must be the first one (a table and no error, or an error).
+func tableOf(sp *spec.Spec, src string) (*lr.ParsingTable, error, error) {
+	h := uint32(2166136261)
+	for i := 0; i < len(src); i++ {
+		h = (h ^ uint32(src[i])) * 16777619
+	}
+	if h%2 == 0 {
+		_, _ = spec.Parse("other.ebnf", strings.NewReader(otherLevels))
+		rec.Count("tables_built_after_another_specification_was_derived", 1)
+	}
+	T, terr := sp.LALRParsingTable()
+	T2, terr2 := sp.LALRParsingTable()
+	if (terr == nil) != (terr2 == nil) || (T == nil) != (T2 == nil) {
+		return T, terr, fmt.Errorf("LALRParsingTable() is asked twice for the same specification: the first answer is error=%v, the second error=%v\nspecification:\n%s", terr, terr2, src)
+	}
+	if T != nil && T2 != nil && T.String() != T2.String() {
+		return T, terr, fmt.Errorf("LALRParsingTable() is asked twice for the same specification and hands out two different tables\nspecification:\n%s", src)
+	}
+	return T, terr, nil
 }
 
 // drive is the textbook shift-reduce algorithm over emerge's table.  If render is set, a value stack is kept:
@@ -463,8 +494,12 @@ func checkEBNF(m *ref.SpecModel, src string, n int, cyclicListed bool) (cls stri
 	}
 	var T *lr.ParsingTable
 	var terr error
-	if p := rec.Guard(func() { T, terr = sp.LALRParsingTable() }); p != nil {
+	var twice error
+	if p := rec.Guard(func() { T, terr, twice = tableOf(sp, src) }); p != nil {
 		return "panic", false, fmt.Errorf("%v\nspecification:\n%s", p, src)
+	}
+	if twice != nil {
+		return "asked_twice", false, twice
 	}
 	if lalr && terr != nil {
 		return "ebnf_lalr", false, fmt.Errorf("the derived grammar is LALR(1), but the table is refused: %v\nspecification:\n%s", terr, src)
